@@ -220,7 +220,7 @@ Proof.
     pose proof (HU _ (or_intror HI')) as P. cbn [fst] in P. apply SP_prefix_inv in P.
     rewrite P in HE. rewrite (newk_of_SK old new _ w Ho) in HE.
     apply SK_inj in HE; [|reflexivity]. destruct HE as [_ HE].
-    simpl in Hs. destruct Hs as [Hgt _]. specialize (Hgt _ HI'). simpl in Hgt.
+    simpl in Hs. destruct Hs as [Hgt _]. specialize (Hgt _ HI'). cbn [fst] in Hgt.
     rewrite P, <- HE, cmp_refl in Hgt. discriminate.
   - apply IH; [eapply ssorted_tail; exact Hs|intros e' H'; apply HU; right; exact H'|exact HI].
 Qed.
